@@ -1,17 +1,17 @@
-\* C11 thorough: pause / reset / resume around the halt, one injected fault
+\* growth: scan retry (WaitingForRescan, rescanWaitDuration) and missing-files re-cycle: three faults, two timers, flushw + pause
 CONSTANTS
- Mixes <- MixesC11
+ Mixes <- MixRec
  StartPaused = {FALSE}
  Mode = "tws"
  InitTree <- D2
  InitArchive <- D2
- EditVals <- EditsC11
- EditSides = {"alpha", "beta"}
+ EditVals <- EditsC29
+ EditSides = {"alpha"}
  EventSides = {"alpha"}
  MaxEdits = 1
  MaxEvents = 1
- MaxFaults = 1
- MaxTicks = 0
+ MaxFaults = 3
+ MaxTicks = 2
  Export = FALSE
  RunToBlock = FALSE
  Mut = "none"
